@@ -230,9 +230,9 @@ class C01(Property):
         '(not pairs) and mappings whose __getitem__ raises are outside the model',
         'an OMD of the sibling class or of a subclass counts as an OMD (isinstance), any collections.abc.Mapping as a mapping',
     ]
-    CORRESPONDENCE_NAME = ('C01.Driver (concrete model: dict of value lists + identified cells + per-key cell index _map, '
-                           'readers through its abstraction) vs boltons OrderedMultiDict (dictutils, urlutils copy, '
-                           'QueryParamDict)')
+    CORRESPONDENCE_NAME = ('C01.Driver (concrete model: dict of value lists + pointer-level linked list of cells + per-key '
+                           'cell index _map; readers through its abstraction, reversed() along PREV) vs boltons '
+                           'OrderedMultiDict (dictutils, urlutils copy, QueryParamDict)')
 
     # ------------------------------------------------------------------ generation
     def _full_alphabet(self):
@@ -261,7 +261,9 @@ class C01(Property):
         A += [['addlist', 0, 'x', [1, 0]], ['addlist', 1, 'x', []], ['upd', ['p', 'x', [[0, 0], [1, 1], [0, 1]]], []],
               ['ext', ['p', 'x', [[1, 0], [1, 1]]], []], ['new', ['p', 'x', [[0, 1]]], []], ['ior', ['p', 'x', []]],
               ['upd', ['sl'], []], ['ext', ['sl'], []], ['upd', ['sd'], []], ['ext', ['sd'], []],
-              ['eq', ['x', 'td']], ['eq', ['sl']]]
+              ['eq', ['x', 'td']], ['eq', ['sl']],
+              # keyword arguments that collide with the positional argument (they win, and come last)
+              ['upd', ['m', [[0, 1]]], [[0, 0]]], ['upd', ['p', 'l', [[0, 1], [1, 1]]], [[0, 0]]]]
         return A
 
     def _core_alphabet(self):
@@ -484,6 +486,12 @@ class C01(Property):
             H.append([base] + [['eq', ['o', o]]] * 4 + [['upd', ['o', o], []]] + [['eq', ['o', o]]] * 4)
         for m in ([[0, 2], [1, 0], [2, 3]], [[0, 2], [1, 0], [2, 0]], [[0, 2], [1, 0]]):
             H.append([base] + [['eq', ['m', m]]] * 6 + [['eq', ['x', 'td']], ['eq', ['sd']], ['eq', ['sl']]])
+        # a mapping that lacks a key whose visible value is None (a `.get()`-style comparison would not notice)
+        for h in ([['add', 2, 4], ['eq', ['m', [[3, 1]]]], ['eq', ['m', [[2, 4]]]], ['eq', ['m', [[3, 4]]]]],
+                  [['add', 0, 1], ['add', 1, 4], ['eq', ['m', [[0, 1], [2, 4]]]], ['eq', ['m', [[0, 1], [2, 1]]]]],
+                  [['sd', 1, -1], ['eq', ['m', [[0, 4]]]], ['eq', ['m', [[1, 4]]]], ['eq', ['m', [[0, 0]]]]]):
+            for _ in range(3):
+                H.append(h)
         # one long history: hundreds of values under two keys, interleaved, then taken apart again
         big = [j % 4 for j in range(300)]
         H.append([['addlist', 0, 'l', big], ['addlist', 1, 'g', big[:150]], ['addlist', 0, 'i', big[:120]], ['add', 2, 1],
